@@ -57,6 +57,25 @@ class HandlerInterp(object):
     def val(self, e):
         if isinstance(e, ast.Name) and e.id in self.env:
             return self.env[e.id]
+        if not isinstance(e, ast.Name):
+            sp = self._split(e)
+            if sp is not None:
+                return sp
+        if isinstance(e, ast.IfExp):
+            try:
+                return ('cond', self._test(e.test), self.val(e.body), self.val(e.orelse))
+            except ValueError:
+                return ('other', ast.unparse(e)[:40])
+        if isinstance(e, ast.Call) and isinstance(e.func, ast.Name) and e.func.id == 'max' and len(e.args) == 2 and not e.keywords \
+                and any(isinstance(a, ast.Constant) and a.value == 0 and not isinstance(a.value, bool) for a in e.args):
+            # max(x, 0): x where x > 0, else 0
+            x = [a for a in e.args if not (isinstance(a, ast.Constant) and a.value == 0)]
+            if len(x) == 1:
+                try:
+                    nx = self.num(x[0])
+                    return ('cond', ('>0', nx), ('num', nx), ('num', alg.RatFun.const(0)))
+                except ValueError:
+                    pass
         if isinstance(e, ast.Name) and e.id == self.nodep:
             return ('visited-node',)
         if isinstance(e, ast.Call):
@@ -163,7 +182,30 @@ class HandlerInterp(object):
         if isinstance(t, ast.Compare) and len(t.ops) == 1 and isinstance(t.comparators[0], ast.Constant):
             op = {ast.Gt: '>', ast.GtE: '>=', ast.Lt: '<', ast.LtE: '<=', ast.Eq: '==', ast.NotEq: '!='}.get(type(t.ops[0]), '?')
             return ('%s%s' % (op, t.comparators[0].value), self.num(t.left))
+        if isinstance(t, ast.Compare) and len(t.ops) == 1 and isinstance(t.ops[0], (ast.Gt, ast.Lt)):
+            # x > y  is  x - y > 0
+            l, r = self.num(t.left), self.num(t.comparators[0])
+            return ('>0', l - r if isinstance(t.ops[0], ast.Gt) else r - l)
         raise ValueError('test')
+
+    def _split(self, e):
+        """an expression over a local that holds a two-way choice (`s = h if h > 0 else 0`, `max(h, 0)`) is the choice between the two readings"""
+        for n in ast.walk(e):
+            if isinstance(n, ast.Name) and isinstance(n.ctx, ast.Load) and n.id in self.env and self.env[n.id][0] == 'cond' \
+                    and self.env[n.id][2][0] == 'num' and self.env[n.id][3][0] == 'num':
+                c = self.env[n.id]
+                saved = self.env
+                try:
+                    self.env = dict(saved)
+                    self.env[n.id] = c[2]
+                    va = self.val(e)
+                    self.env = dict(saved)
+                    self.env[n.id] = c[3]
+                    vb = self.val(e)
+                finally:
+                    self.env = saved
+                return va if va == vb else ('cond', c[1], va, vb)
+        return None
 
 
 def _eq_num(a, b):
@@ -214,6 +256,7 @@ def _horizon_value(ix, cls, f, nodes):
     """evaluate a horizon handler with the children's horizons as symbols c0, c1"""
     nodep = f.node.args.args[1].arg
     env = {}
+    pairs = set()
     out = {'ret': None, 'stored': None}
 
     def leaf(e):
@@ -226,6 +269,18 @@ def _horizon_value(ix, cls, f, nodes):
             if {repr(a), repr(b)} == {'c0', 'c1'}:
                 return _sym('max(c0,c1)')
             return _sym('max(%s)' % ','.join(sorted([repr(a), repr(b)])))
+        if isinstance(e, ast.IfExp) and isinstance(e.test, ast.Compare) and len(e.test.ops) == 1 and isinstance(e.test.ops[0], (ast.Gt, ast.GtE, ast.Lt, ast.LtE)):
+            # a if a > b else b: the larger of the two
+            ev_ = alg.AlgEval(env, leaf).ev
+            l, r, bv, ov = ev_(e.test.left), ev_(e.test.comparators[0]), ev_(e.body), ev_(e.orelse)
+            greater = isinstance(e.test.ops[0], (ast.Gt, ast.GtE))
+            if {repr(bv), repr(ov)} == {repr(l), repr(r)} and repr(l) != repr(r):
+                which = 'max' if (repr(bv) == repr(l)) == greater else 'min'
+                if which == 'max' and {repr(l), repr(r)} == {'c0', 'c1'}:
+                    return _sym('max(c0,c1)')
+                return _sym('%s(%s)' % (which, ','.join(sorted([repr(l), repr(r)]))))
+        if isinstance(e, ast.Subscript) and isinstance(e.value, ast.Name) and e.value.id in pairs and isinstance(e.slice, ast.Constant) and e.slice.value in (0, 1):
+            return _sym('BEGIN' if e.slice.value == 0 else 'END')
         if isinstance(e, ast.Call) and isinstance(e.func, ast.Name) and e.func.id in ('min', 'sum', 'abs') and e.args:
             args = [alg.AlgEval(env, leaf).ev(x) for x in e.args]
             return _sym('%s(%s)' % (e.func.id, ','.join(sorted(repr(a) for a in args))))
@@ -242,7 +297,11 @@ def _horizon_value(ix, cls, f, nodes):
     for st in f.node.body:
         if isinstance(st, ast.Assign) and len(st.targets) == 1:
             t = st.targets[0]
-            if isinstance(t, ast.Name):
+            if isinstance(t, ast.Name) and isinstance(st.value, ast.Call) and isinstance(st.value.func, (ast.Name, ast.Attribute)) \
+                    and isinstance(ix.resolve_expr(f.module, st.value.func), FuncInfo) and unitflow.is_normaliser(ix.resolve_expr(f.module, st.value.func)):
+                # bounds = normaliser(..): bounds[0], bounds[1]
+                pairs.add(t.id)
+            elif isinstance(t, ast.Name):
                 env[t.id] = alg.AlgEval(env, leaf).ev(st.value)
             elif isinstance(t, ast.Tuple) and isinstance(st.value, ast.Call):
                 ent = ix.resolve_expr(f.module, st.value.func) if isinstance(st.value.func, (ast.Name, ast.Attribute)) else None
